@@ -69,6 +69,7 @@ class SymCtx:
         self.specmod.attrs = self.ns
         self.frame = Frame(self.specmod)
         self._install_helpers()
+        self.I.spec_env = self.ns       # spec helpers are visible in invariants evaluated inside function frames
         self.n_ensures = 0
         for parent, nm, old in reversed(modules.pop('<patched>', [])):      # c.patch of the previous path
             parent.attrs[nm] = old
@@ -313,9 +314,10 @@ class SymCtx:
     def summary(self, ref, apply):
         self.I.summaries[ref] = {'apply': apply}
 
-    def loop_invariant(self, funcref, loop, invariant, havoc, names, variant=None, tag=None):
+    def loop_invariant(self, funcref, loop, invariant, havoc, names, variant=None, tag=None, index='k', iteration_post=()):
         f = self.I.resolve(funcref)
-        self.I.loop_specs[(f.qualname, loop)] = {'invariant': invariant, 'havoc': havoc, 'names': names,
+        self.I.loop_specs[(f.qualname, loop)] = {'invariant': invariant, 'havoc': havoc, 'names': names, 'index': index,
+                                                 'iteration_post': list(iteration_post),
                                                  'variant': variant, 'tag': tag or '%s#%s' % (f.qualname, loop)}
 
     def call(self, target, *args, **kwargs):
@@ -403,6 +405,9 @@ class SymCtx:
         (non-decreasing is assumed; afterwards fresh non-decreasing values)"""
         if clock is not None:
             self.I.time_script = list(ops.seq_items(clock)) if ops.is_seq(clock) else list(clock)
+
+    def _live_trace(self):
+        return tuple((n, tuple(a), PDict(list(k.items()))) for n, a, k in self.I.trace)
 
     def reset_trace(self):
         del self.I.trace[:]
@@ -660,14 +665,14 @@ class SymCtx:
         @helper('calls')
         def _calls(I_, a, k):
             """names of trace entries, optionally filtered by prefix"""
-            tr = ns.get('trace', ())
+            tr = self._live_trace()
             pre = a[0] if a else ''
             return tuple(e[0] for e in tr if e[0].startswith(pre))
 
         @helper('sent')
         def _sent(I_, a, k):
             """trace entries with the given name"""
-            tr = ns.get('trace', ())
+            tr = self._live_trace()
             return tuple(e for e in tr if e[0] == a[0])
 
         @helper('is_same')
